@@ -257,7 +257,7 @@ func (w *World) tmp(suffix string) string {
 }
 
 // Create builds a database with content f at path p with the real compiler.
-// An unreadable file is garbage (cdb) / a directory that is no database (rocksdb).
+// An unreadable path is a directory (cdb) / a directory that is no database (rocksdb).
 func (w *World) Create(p int, f File) error {
 	if err := w.mkdir(); err != nil {
 		return err
@@ -265,7 +265,10 @@ func (w *World) Create(p int, f File) error {
 	dst := w.Path(p)
 	if !f.OK {
 		if w.Backend == "cdb" {
-			return os.WriteFile(dst, []byte("this is not a cdb file"), 0o644)
+			// a directory where the cdb file should be: open succeeds, reading it fails.
+			// (A regular file with garbage content is NOT unreadable for the cdb driver: it
+			// is opened and accepted unless a validation key is configured.)
+			return os.MkdirAll(dst, 0o755)
 		}
 		if err := os.MkdirAll(dst, 0o755); err != nil {
 			return err
